@@ -103,7 +103,7 @@ func addLifeStuff(r rng, p *sdl.Program) {
 	n := r.n(0, 3)
 	classes := []string{"plain", "inst", "smart"}
 	for i := 1; i <= n; i++ {
-		p.Procs = append(p.Procs, &sdl.Proc{ID: fmt.Sprintf("pp%d", i), Class: pick(r, classes), OrderClass: pick(r, orderClasses), Order: pick(r, orderVals), Props: r.p(0.5)})
+		p.Procs = append(p.Procs, &sdl.Proc{ID: fmt.Sprintf("pp%d", i), Class: pick(r, classes), OrderClass: pick(r, orderClasses), Order: pick(r, orderVals), Props: r.p(0.5), Lazy: r.p(0.35)})
 	}
 	// runners: dedicated types
 	nr := r.n(0, 5)
@@ -389,7 +389,7 @@ func genConfig(r rng, seed uint64, id string, merge bool) *sdl.Program {
 	// user processors interleave with the built-in configuration stages
 	classes := []string{"inst", "smart", "plain"}
 	for i := 0; i < r.n(0, 3); i++ {
-		p.Procs = append(p.Procs, &sdl.Proc{ID: fmt.Sprintf("pp%d", i), Class: pick(r, classes), OrderClass: pick(r, orderClasses), Order: pick(r, []int{-5, 0, 1, 3, 4, 6, 9, 20}), Props: true})
+		p.Procs = append(p.Procs, &sdl.Proc{ID: fmt.Sprintf("pp%d", i), Class: pick(r, classes), OrderClass: pick(r, orderClasses), Order: pick(r, []int{-5, 0, 1, 3, 4, 6, 9, 20}), Props: true, Lazy: r.p(0.3)})
 	}
 	return p
 }
@@ -506,7 +506,7 @@ func GenerateTwins(seed uint64, idFlat, idEmb string) (*sdl.Program, *sdl.Progra
 			t.Custom = append(t.Custom, &sdl.Custom{Field: "Mark", Tag: pick(r, customTags), Val: pick(r, []string{"", "m1"}), Exported: true, Anon: true})
 		}
 		// frame fields of every kind
-		kinds := []string{"untagged", "unexported", "foreign", "named", "taggedEmbed", "ptrEmbed", "lookalike"}
+		kinds := []string{"untagged", "unexported", "foreign", "named", "taggedEmbed", "ptrEmbed", "lookalike", "ptrEmbedSet"}
 		for fi, kind := range kinds {
 			if !r.p(0.5) {
 				continue
